@@ -130,10 +130,10 @@ Definition packet_ok (c : bytes * Z * bool * Z * bool) : bool :=
 Definition check_packet := mismatches packet_ok.
 
 From V Require Import C16.CssIdent.
-(* css_lexer.RangeOfIdentifier: (text, status, Len) - the current code tests the end of the text *)
+(* css_lexer.RangeOfIdentifier: (text, status, Len); status 2 = no result in time (model: Hang) *)
 Definition roi_ok (c : bytes * Z * Z) : bool :=
   let '(t, st, l) := c in
-  match RangeOfIdentifier true t with
+  match RangeOfIdentifier_current t with
   | Ok l' => (st =? 0) && (l =? l')
   | x => st =? status_of x
   end.
